@@ -116,10 +116,92 @@ func expandSite(s *inlineSite, k int, overlay map[string][]byte) (*expansion, er
 		}
 		return true
 	})
+	// A pointer receiver or pointer parameter whose actual is `&x` / `x` for a
+	// plain local variable x of the caller, and which the helper only uses as
+	// the base of selectors (p.field, p.method()), is substituted by x instead
+	// of being bound to a fresh pointer variable: no address of x is taken, so
+	// the variable stays a candidate for scalar replacement.
+	substitute := map[types.Object]string{}
+	{
+		onlySelectorBase := func(obj types.Object) bool {
+			ok := true
+			var stack []ast.Node
+			ast.Inspect(helper.Body, func(n ast.Node) bool {
+				if n == nil {
+					stack = stack[:len(stack)-1]
+					return true
+				}
+				if id, isID := n.(*ast.Ident); isID && hinfo.Uses[id] == obj {
+					parent := ast.Node(nil)
+					if len(stack) > 0 {
+						parent = stack[len(stack)-1]
+					}
+					if sel, isSel := parent.(*ast.SelectorExpr); !isSel || sel.X != ast.Expr(id) {
+						ok = false
+					}
+				}
+				stack = append(stack, n)
+				return true
+			})
+			return ok
+		}
+		localVarName := func(e ast.Expr, wantPtr bool) string {
+			if u, isAddr := e.(*ast.UnaryExpr); isAddr && u.Op == token.AND && wantPtr {
+				e = u.X
+			}
+			id, isID := e.(*ast.Ident)
+			if !isID {
+				return ""
+			}
+			v, isVar := cinfo.Uses[id].(*types.Var)
+			if !isVar || v.IsField() || v.Parent() == nil || v.Parent() == s.pkg.Types.Scope() || v.Pkg() != s.pkg.Types {
+				return ""
+			}
+			return id.Name
+		}
+		if helper.Recv != nil && len(helper.Recv.List) == 1 && len(helper.Recv.List[0].Names) == 1 && helper.Recv.List[0].Names[0].Name != "_" {
+			if _, isPtr := sig.Recv().Type().Underlying().(*types.Pointer); isPtr {
+				if sel, isSel := s.call.Fun.(*ast.SelectorExpr); isSel {
+					robj := hinfo.Defs[helper.Recv.List[0].Names[0]]
+					if name := localVarName(sel.X, true); name != "" && robj != nil && onlySelectorBase(robj) {
+						substitute[robj] = name
+					}
+				}
+			}
+		}
+		if helper.Type.Params != nil {
+			ai := 0
+			for _, f := range helper.Type.Params.List {
+				names := f.Names
+				if len(names) == 0 {
+					ai++
+					continue
+				}
+				for _, nm := range names {
+					if ai < len(s.call.Args) && ai < sig.Params().Len() && nm.Name != "_" {
+						if _, isPtr := sig.Params().At(ai).Type().Underlying().(*types.Pointer); isPtr && !sig.Variadic() {
+							pobj := hinfo.Defs[nm]
+							if name := localVarName(s.call.Args[ai], true); name != "" && pobj != nil && onlySelectorBase(pobj) {
+								// `x` itself (a pointer variable) or `&x` (a struct variable): both read p.f as x.f
+								if _, isAddr := s.call.Args[ai].(*ast.UnaryExpr); isAddr || isPointerTyped(cinfo, s.call.Args[ai]) {
+									substitute[pobj] = name
+								}
+							}
+						}
+					}
+					ai++
+				}
+			}
+		}
+	}
 	for i, id := range origIdents {
 		obj := hinfo.Defs[id]
 		if obj == nil {
 			obj = hinfo.Uses[id]
+		}
+		if name, sub := substitute[obj]; sub && obj != nil && hinfo.Uses[id] == obj {
+			copyIdents[i].Name = name
+			continue
 		}
 		if symbolic[id] && id.Name != "_" {
 			copyIdents[i].Name = id.Name + suffix
@@ -311,7 +393,9 @@ func expandSite(s *inlineSite, k int, overlay map[string][]byte) (*expansion, er
 			recvExpr = "*" + recvExpr
 		}
 		if len(recvField.Names) == 1 && recvField.Names[0].Name != "_" {
-			fmt.Fprintf(&prelude, "var %s%s %s = %s\n_ = %s%s\n", recvField.Names[0].Name, suffix, typeStr(recvT), recvExpr, recvField.Names[0].Name, suffix)
+			if _, sub := substitute[hinfo.Defs[recvField.Names[0]]]; !sub {
+				fmt.Fprintf(&prelude, "var %s%s %s = %s\n_ = %s%s\n", recvField.Names[0].Name, suffix, typeStr(recvT), recvExpr, recvField.Names[0].Name, suffix)
+			}
 		} else {
 			fmt.Fprintf(&prelude, "_ = %s\n", recvExpr)
 		}
@@ -331,6 +415,8 @@ func expandSite(s *inlineSite, k int, overlay map[string][]byte) (*expansion, er
 				arg := printExpr(s.call.Args[argi])
 				if nm.Name == "_" {
 					fmt.Fprintf(&prelude, "_ = %s\n", arg)
+				} else if _, sub := substitute[hinfo.Defs[nm]]; sub {
+					// used in place
 				} else {
 					fmt.Fprintf(&prelude, "var %s%s %s = %s\n_ = %s%s\n", nm.Name, suffix, typeStr(pt), arg, nm.Name, suffix)
 				}
@@ -1183,4 +1269,13 @@ func exprNonNil(info *types.Info, helper *ast.FuncDecl, e ast.Expr, ret *ast.Ret
 		}
 	}
 	return false
+}
+
+func isPointerTyped(info *types.Info, e ast.Expr) bool {
+	t := info.TypeOf(e)
+	if t == nil {
+		return false
+	}
+	_, ok := t.Underlying().(*types.Pointer)
+	return ok
 }
